@@ -1280,6 +1280,10 @@ def start_signature(boot, start, types):
     if any(v != 'v0' for v in start.get('fgot', {}).values()):
         return {'module': 'Persistent', 'clause': 'Tolerant', 'cause': 'foreign_key',
                 'effect': 'entry_of_non_persistent_parameter_restored'}
+    if start.get('target') != start.get('cur') and any(
+            boot['file'][p] not in ('-', 'bad') and boot['file'][p] != start['got'][p] for p in start['got']):
+        return {'module': 'Persistent', 'clause': 'Precedence', 'cause': 'startup_save_missing',
+                'effect': 'stale_file_of_previous_run_left_for_reload'}
     sig['effect'] = 'other'
     return sig
 
@@ -1304,6 +1308,9 @@ def trace_signature(trace, l, clause, types):
                    'dtypes': _dtypes(ev['notstored'])}
     if ev.get('ev') == 'ret':
         sig.update(call=ev['call'], out=ev['out'], faulted=ev['faults'] > 0)
+    if ev.get('ev') == 'start' and clause == 'Start.saved':
+        sig = {'module': 'Persistent', 'clause': 'Precedence', 'cause': 'startup_save_missing',
+               'effect': 'stale_file_of_previous_run_left_for_reload'}
     if ev.get('ev') == 'reload' and clause == 'Foreign':
         sig = {'module': 'Persistent', 'clause': 'Tolerant', 'cause': 'foreign_key', 'at': 'reload',
                'effect': 'entry_of_non_persistent_parameter_restored'}
